@@ -96,6 +96,13 @@ type Case struct {
 	// middleware registered with shoot.Use before the driver's own one (so it wraps it)
 	Logging bool `json:"logging"`
 	Wrap    bool `json:"wrap"`
+	// further client options: a non-empty shoot.DefaultHeaders; shoot.Use(middleware.RetryMiddleware(*Retry, 1ms))
+	// around the driver's middleware (null: none); shoot.Timeout(time.Duration(OptTimeout)) instead of setting
+	// http.Client.Timeout through ConfigHTTPClient (the generated constructor multiplies it by 10^9, open
+	// finding K_rest_timeout: 1 gives one second)
+	Headers    bool  `json:"headers"`
+	Retry      *int  `json:"retry"`
+	OptTimeout int64 `json:"opt_timeout"`
 }
 
 type ValObs struct {
@@ -244,7 +251,7 @@ func handler(w http.ResponseWriter, r *http.Request) {
 		select {
 		case <-s.release:
 		case <-r.Context().Done():
-		case <-time.After(20 * time.Second):
+		case <-time.After(hangCap):
 		}
 		return
 	}
@@ -259,10 +266,14 @@ func handler(w http.ResponseWriter, r *http.Request) {
 		}
 		select {
 		case <-s.release:
-		case <-time.After(20 * time.Second):
+		case <-time.After(hangCap):
 		}
 	}
 }
+
+// a held request is answered after this long at the latest (a cancellation or timeout that works ends it
+// after 30 ms; one that does not reach the transport must not cost more than this per case)
+const hangCap = 2 * time.Second
 
 // --------------------------------------------------------------- one case
 type state struct {
@@ -499,13 +510,24 @@ func runCase(c Case) (o Obs) {
 			})
 		}))
 	}
+	if c.Headers {
+		opts = append(opts, shoot.DefaultHeaders(map[string]string{"X-C10-Default": "on", "Accept": "application/json"}))
+	}
+	if c.Retry != nil {
+		opts = append(opts, shoot.Use(middleware.RetryMiddleware(*c.Retry, time.Millisecond)))
+	}
+	if c.OptTimeout != 0 {
+		opts = append(opts, shoot.Timeout(time.Duration(c.OptTimeout)))
+	}
 	opts = append(opts, shoot.Use(st.mw()))
 	cl := mk(opts...)
 	cv := reflect.ValueOf(cl)
 	cfg := cv.MethodByName("ConfigHTTPClient")
 	cfg.Call([]reflect.Value{reflect.ValueOf(func(hc *http.Client) {
 		st.hc = hc
-		hc.Timeout = clientTimeout
+		if c.OptTimeout == 0 {
+			hc.Timeout = clientTimeout
+		}
 	})})
 	m := cv.MethodByName(c.Method)
 	if !m.IsValid() {
